@@ -61,6 +61,7 @@ void s_network_accept_cancel(void *);
 void *s_mkaddrs_static(int port);   /* static storage, no allocation */
 void *s_network_connect(void *addrs, int (*)(void *, int), void *);
 void s_network_connect_cancel(void *);
+void *s_network_connect_timeo(void *addrs, long sec, int (*)(void *, int), void *);
 /* netbuf */
 void *s_nr_init(int);
 void s_nr_peek(void *, uint8_t **, size_t *);
